@@ -169,7 +169,7 @@ pub fn test(w: &Case) -> Verdict {
     with_ctx!(w.be, |c| run(c, w))
 }
 
-fn strategy() -> BoxedStrategy<Case> {
+pub fn strategy() -> BoxedStrategy<Case> {
     // preparation runs 32 circuit bootstrappings: keep it a small share
     (prop_oneof![Just(Be::FftRef), Just(Be::FftAvx), Just(Be::NttRef)], prop_oneof![6 => 0u8..2, 3 => 2u8..4, 1 => 4u8..6], 0u8..11, 0u8..4, any::<u32>(), any::<u32>(), any::<u64>())
         .prop_map(|(be, kind, op, threads, a, b, seed)| Case { be, kind, op, threads, a, b, seed })
